@@ -321,6 +321,8 @@ PROPS['C17'] = {
         thm('EmmetProps.C17_select_prev', 'select_item_html previous = an open / self-closing tag starting before the position', partial=True),
         thm('EmmetProps.C17_class_tokens', 'all values / offsets: class-token ranges are non-empty and inside the value', partial=True),
         thm('EmmetProps.C16_html_scan', 'the tags those helpers choose from are in-range slices `<…>` of the source, in order'),
+        thm('EmmetProps.C17_css_select_next', 'every source, every position: the item select_item_css (next) returns lies inside the source and its full / value / value-token ranges lie inside the item', partial=True),
+        thm('EmmetProps.C17_css_select_prev', 'the same for select_item_css (previous)', partial=True),
     ],
     'domains': ['dom_action'],
     'rule': 'generated HTML documents (as for C09, with recorded tags, attribute name / value ranges) and generated stylesheets (as for C10, plus rules whose last declaration is terminated by the end of the body) x every position: get_open_tag (tag + attributes), select_item_html next / previous (tag, name, attribute, unquoted value, class-token ranges), get_css_section with properties (name, value, value tokens, before, after), select_item_css next / previous (full, value, value-token ranges) against ground truth; plus random HTML / CSS fragment strings for range containment; non-trivial = a result at some position; distinct = distinct source',
